@@ -178,6 +178,9 @@ func (omr objMeshReading) toMesh() ObjMesh {
 
 func ReadMesh(in io.Reader) ([]ObjMesh, []string, error) {
 	scanner := bufio.NewScanner(in)
+	// OBJ puts no limit on the length of a line (long comments, padded or polygon
+	// faces); the scanner's default 64 KiB token would reject the whole file.
+	scanner.Buffer(make([]byte, 0, bufio.MaxScanTokenSize), 1<<30)
 
 	readVerts := make([]vector3.Float64, 0)
 	readNormals := make([]vector3.Float64, 0)
